@@ -34,11 +34,26 @@ type c05Attrs struct {
 	BuildShort bool             `json:"build_short_syntax,omitempty"`
 	BuildTargetOnly bool        `json:"build_target_only,omitempty"` // main-file extending service: `build: {target: x}`, the context is inherited
 	LabelList bool              `json:"labels_as_list,omitempty"`
+	// depends_on on the leaf services dep_x/dep_y/dep_z of the main file: short (list) syntax, or long syntax
+	// with `condition` and optionally `required` / `restart`. A field somebody states explicitly overrides
+	// what is inherited; the short syntax states condition and required.
+	Deps      []c05Dep          `json:"depends_on,omitempty"`
+	DepsShort bool              `json:"depends_on_short,omitempty"`
+	// a label `ld` whose value holds an escaped dollar and a variable whose value holds a dollar: interpolated
+	// exactly once wherever in the chain it is declared
+	Dollar bool `json:"dollar_label,omitempty"`
 	// tags of the override rules, meaningful on an extending service: `attr: !reset null` drops whatever was
 	// inherited for attr, `!override` replaces the inherited value wholesale instead of merging
 	Reset          []string `json:"reset,omitempty"` // subset of image user cap_add labels command dns
 	OverrideCap    bool     `json:"override_cap_add,omitempty"`
 	OverrideLabels bool     `json:"override_labels,omitempty"`
+}
+
+type c05Dep struct {
+	To       string `json:"to"`
+	Cond     string `json:"condition,omitempty"`
+	Required *bool  `json:"required,omitempty"`
+	Restart  *bool  `json:"restart,omitempty"`
 }
 
 type c05Svc struct {
@@ -136,6 +151,30 @@ func genC05(r *zsimrt.Run) *c05Scenario {
 		}
 		if on("envfile") {
 			a.EnvFiles = []string{"./" + id + ".env"}
+		}
+		if on("deps") {
+			a.DepsShort = r.Chance("deps-short", 1, 2)
+			for _, t := range []string{"dep_x", "dep_y", "dep_z"} {
+				if !r.Chance("dep-use", 1, 2) {
+					continue
+				}
+				d := c05Dep{To: t}
+				if !a.DepsShort {
+					d.Cond = []string{"service_started", "service_healthy", "service_completed_successfully"}[r.Draw("dep-cond", 3)]
+					if r.Chance("dep-req", 1, 2) {
+						v := r.Chance("dep-req-v", 1, 2)
+						d.Required = &v
+					}
+					if r.Chance("dep-restart", 1, 3) {
+						v := r.Chance("dep-restart-v", 1, 2)
+						d.Restart = &v
+					}
+				}
+				a.Deps = append(a.Deps, d)
+			}
+		}
+		if a.Labels != nil && r.Chance("dollar", 1, 3) {
+			a.Dollar = true
 		}
 		return a
 	}
@@ -347,6 +386,8 @@ func (sc *c05Scenario) layout(perm func(int) []int) *Layout {
 	L := &Layout{Files: map[string]string{}, Env: map[string]string{}, Home: "/home/user", WorkingDir: "/proj", Cwd: "/proj", Entry: "loader", Main: []string{sc.Main}}
 	L.Opts = LoadOpts{SkipConsistencyCheck: true, SkipResolveEnvironment: true, ProjectName: "c05"}
 	docs := map[string]*Y{}
+	usesDeps := false
+	L.Env["C05VAR"] = "v$x"
 	for _, s := range sc.Svcs {
 		d := docs[s.File]
 		if d == nil {
@@ -365,7 +406,37 @@ func (sc *c05Scenario) layout(perm func(int) []int) *Layout {
 			y.Set("user", Str(a.User))
 		}
 		if a.Labels != nil {
-			y.Set("labels", mapY(a.Labels, a.LabelList))
+			lm := a.Labels
+			if a.Dollar {
+				lm = map[string]string{"ld": "cost-$$5-${C05VAR}-" + s.Name}
+				for k, x := range a.Labels {
+					lm[k] = x
+				}
+			}
+			y.Set("labels", mapY(lm, a.LabelList))
+		}
+		if len(a.Deps) > 0 {
+			usesDeps = true
+			if a.DepsShort {
+				var ts []string
+				for _, d := range a.Deps {
+					ts = append(ts, d.To)
+				}
+				y.Set("depends_on", StrSeq(ts...))
+			} else {
+				dm := Map()
+				for _, d := range a.Deps {
+					e := Map().Set("condition", Str(d.Cond))
+					if d.Required != nil {
+						e.Set("required", Bool(*d.Required))
+					}
+					if d.Restart != nil {
+						e.Set("restart", Bool(*d.Restart))
+					}
+					dm.Set(d.To, e)
+				}
+				y.Set("depends_on", dm)
+			}
 		}
 		if a.Env != nil {
 			y.Set("environment", mapY(a.Env, false))
@@ -447,6 +518,11 @@ func (sc *c05Scenario) layout(perm func(int) []int) *Layout {
 		}
 		d.Get("services").Set(s.Name, y)
 	}
+	if usesDeps && docs[sc.Main] != nil {
+		for _, t := range []string{"dep_x", "dep_y", "dep_z"} {
+			docs[sc.Main].Get("services").Set(t, Map().Set("image", Str("leaf")))
+		}
+	}
 	var p func(int) []int
 	if sc.KeyPerm {
 		p = perm
@@ -472,6 +548,8 @@ type c05Val struct {
 	BuildCtx           string
 	Volumes            map[string]string // target -> absolute source
 	EnvFiles           []string
+	Deps               map[string]string // target -> "condition/required/restart" (after defaults)
+	deps               map[string]c05Dep // explicit fields so far along the chain
 }
 
 func (sc *c05Scenario) resolve(file, name string, depth int) *c05Val {
@@ -501,6 +579,13 @@ func (sc *c05Scenario) resolve(file, name string, depth int) *c05Val {
 		v.CapAdd = append([]string(nil), b.CapAdd...)
 		v.DNS = append([]string(nil), b.DNS...)
 		v.EnvFiles = append([]string(nil), b.EnvFiles...)
+		v.deps = map[string]c05Dep{}
+		for k, x := range b.deps {
+			v.deps[k] = x
+		}
+	}
+	if v.deps == nil {
+		v.deps = map[string]c05Dep{}
 	}
 	dir := path.Dir(s.File)
 	a := s.Attrs
@@ -538,6 +623,37 @@ func (sc *c05Scenario) resolve(file, name string, depth int) *c05Val {
 	}
 	for k, x := range a.Labels {
 		v.Labels[k] = x
+	}
+	if a.Dollar && a.Labels != nil {
+		v.Labels["ld"] = "cost-$5-v$x-" + s.Name
+	}
+	yes := true
+	for _, d := range a.Deps {
+		e := v.deps[d.To]
+		e.To = d.To
+		if a.DepsShort {
+			e.Cond, e.Required = "service_started", &yes
+		} else {
+			e.Cond = d.Cond
+			if d.Required != nil {
+				e.Required = d.Required
+			}
+			if d.Restart != nil {
+				e.Restart = d.Restart
+			}
+		}
+		v.deps[d.To] = e
+	}
+	v.Deps = map[string]string{}
+	for k, e := range v.deps {
+		req, rst := true, false
+		if e.Required != nil {
+			req = *e.Required
+		}
+		if e.Restart != nil {
+			rst = *e.Restart
+		}
+		v.Deps[k] = fmt.Sprintf("%s/%v/%v", e.Cond, req, rst)
 	}
 	for k, x := range a.Env {
 		v.Env[k] = x
@@ -587,6 +703,10 @@ func projectOn(s types.ServiceConfig) *c05Val {
 	for _, e := range s.EnvFiles {
 		v.EnvFiles = append(v.EnvFiles, e.Path)
 	}
+	v.Deps = map[string]string{}
+	for k, d := range s.DependsOn {
+		v.Deps[k] = fmt.Sprintf("%s/%v/%v", d.Condition, d.Required, d.Restart)
+	}
 	return v
 }
 
@@ -610,6 +730,9 @@ func c05Diff(want, got *c05Val) string {
 	w, g := norm(want), norm(got)
 	t := reflect.TypeOf(*w)
 	for i := 0; i < t.NumField(); i++ {
+		if !t.Field(i).IsExported() {
+			continue
+		}
 		a, b := reflect.ValueOf(*w).Field(i).Interface(), reflect.ValueOf(*g).Field(i).Interface()
 		if !reflect.DeepEqual(a, b) {
 			return fmt.Sprintf("%s: expected %v, loaded %v", t.Field(i).Name, a, b)
